@@ -25,6 +25,9 @@ type Ctx struct {
 	// used to have a second parser object at work while this parse is under way.
 	Hook   func()
 	HookAt int
+	// Second: the context object a hook may install in the parser (its calls
+	// are appended to the observation after this one's).
+	Second *Ctx
 }
 
 var ErrInjected = errors.New("injected action failure")
